@@ -416,7 +416,20 @@ def check_population_helpers(prog: Program, size_only: bool = False) -> list:
         for n in own_nodes(fi):
             if not (isinstance(n, ast.Assign) and len(n.targets) == 1 and dotted(n.targets[0]) == "self._population"):
                 continue
-            val = _copy.deepcopy(n.value)
+            # locals bound once to the configured size (`max_size = self._config.population_size`) are that size
+            omap = {}
+            for nn in ast.walk(n.value):
+                if isinstance(nn, ast.Name) and isinstance(nn.ctx, ast.Load) and nn.id not in fi.params:
+                    o_ = origin(fi.node, nn)
+                    if o_ is not nn and isinstance(o_, (ast.Attribute, ast.Name, ast.Constant)):
+                        omap[nn.id] = o_
+
+            class _O(ast.NodeTransformer):
+                def visit_Name(self, nn):
+                    if isinstance(nn.ctx, ast.Load) and nn.id in omap:
+                        return ast.copy_location(_copy.deepcopy(omap[nn.id]), nn)
+                    return nn
+            val = _O().visit(_copy.deepcopy(n.value))
 
             class _R(ast.NodeTransformer):
                 def visit_Attribute(self, a):
